@@ -50,6 +50,7 @@ func genC05(t *tape.Tape, tier string) any {
 	tok := 0
 	pacMap := map[string]string{}
 	var hostsUsed []string
+	var urlRules [][3]string // host, substring of the URL, result
 	for ci := 0; ci < nConns; ci++ {
 		var pc polConn
 		n := 1 + t.Pick(3, 4, 2, 1)
@@ -63,7 +64,7 @@ func genC05(t *tape.Tape, tier string) any {
 			r.Kind = "http"
 			r.Method = []string{"GET", "POST", "HEAD"}[t.Pick(5, 2, 1)]
 			r.Form = []string{"abs", "origin"}[t.Pick(4, 2)]
-			host := []string{r.Token + ".ok.example", r.Token + ".other.example", "keep.other.example", "localhost", "127.0.0.1", "MyAlias.Local"}[t.Pick(6, 4, 2, 1, 1, 1)]
+			host := []string{r.Token + ".ok.example", r.Token + ".other.example", "keep.other.example", "localhost", "127.0.0.1", "MyAlias.Local", "shared.ok.example"}[t.Pick(6, 4, 2, 1, 1, 1, 3)]
 			port := []string{"", ":80", ":8080", fmt.Sprintf(":%d", 10000+tok)}[t.Pick(4, 1, 2, 2)]
 			if pc.MITMHost != "" {
 				r.Form = "origin"
@@ -82,6 +83,9 @@ func genC05(t *tape.Tape, tier string) any {
 			if mode == 2 {
 				if _, ok := pacMap[host]; !ok {
 					pacMap[host] = c05PACResults[t.Intn(len(c05PACResults))]
+				} else if r.Kind == "http" && t.Chance(1, 2) {
+					// the same host again, but the script decides by the URL (its path) this time
+					urlRules = append(urlRules, [3]string{host, "/" + r.Token, c05PACResults[t.Intn(len(c05PACResults))]})
 				}
 			}
 			hostsUsed = append(hostsUsed, host)
@@ -97,6 +101,13 @@ func genC05(t *tape.Tape, tier string) any {
 		var sb strings.Builder
 		sb.WriteString("function FindProxyForURL(url, host) {\n")
 		// deterministic order: hosts in first-use order
+		for _, ur := range urlRules {
+			if ur[2] == "THROW" {
+				fmt.Fprintf(&sb, "  if (host == %q && url.indexOf(%q) >= 0) { throw new Error(\"pac boom\"); }\n", ur[0], ur[1])
+			} else {
+				fmt.Fprintf(&sb, "  if (host == %q && url.indexOf(%q) >= 0) return %q;\n", ur[0], ur[1], ur[2])
+			}
+		}
 		seen := map[string]bool{}
 		for _, h := range hostsUsed {
 			if seen[h] {
@@ -127,6 +138,9 @@ func genC05(t *tape.Tape, tier string) any {
 			}
 			c.ConnectTo = append(c.ConnectTo, rule)
 		}
+	}
+	if t.Chance(1, 5) {
+		c.FlakyDial = 1 + t.Intn(2)
 	}
 	return c
 }
@@ -196,7 +210,7 @@ func refConnectTo(rules []string, addr string) string {
 	return addr
 }
 
-func (w *polWorld) refHop(r *polReq, scheme string, pacMap func(host string) string) hop {
+func (w *polWorld) refHop(r *polReq, scheme string, pacMap func(r *polReq) string) hop {
 	c := w.c
 	host := r.hostOnly()
 	if len(c.Direct) > 0 && refDenied(c.Direct, host) {
@@ -210,15 +224,39 @@ func (w *polWorld) refHop(r *polReq, scheme string, pacMap func(host string) str
 		u, _ := url.Parse(c.Upstream)
 		return hop{kind: u.Scheme, addr: u.Host}
 	case c.PAC != "":
-		return refPACFirst(pacMap(host))
+		return refPACFirst(pacMap(r))
 	}
 	return hop{kind: "direct"}
 }
 
+// pacFor returns the reference evaluation of a generated script for a request.
+func pacFor(script string) func(r *polReq) string {
+	return func(r *polReq) string {
+		part := ""
+		if r.Kind == "http" {
+			part = "/" + r.Token
+		}
+		return pacResultFor(script, r.hostOnly(), part)
+	}
+}
+
 // pacResultFor re-reads the generated script (the mapping is the script's text; this avoids a side channel in the case).
-func pacResultFor(script, host string) string {
+func pacResultFor(script, host, urlPart string) string {
 	for _, line := range strings.Split(script, "\n") {
 		line = strings.TrimSpace(line)
+		if urlPart != "" {
+			pfx := fmt.Sprintf("if (host == %q && url.indexOf(%q) >= 0) ", host, urlPart)
+			if strings.HasPrefix(line, pfx) {
+				rest := strings.TrimPrefix(line, pfx)
+				if strings.HasPrefix(rest, "{ throw") {
+					return "THROW"
+				}
+				rest = strings.TrimSuffix(strings.TrimPrefix(rest, "return "), ";")
+				var s string
+				fmt.Sscanf(rest, "%q", &s)
+				return s
+			}
+		}
 		pfx := fmt.Sprintf("if (host == %q) ", host)
 		if strings.HasPrefix(line, pfx) {
 			rest := strings.TrimPrefix(line, pfx)
@@ -272,7 +310,7 @@ func (w *polWorld) nodeOfAddr(addr string) (node, ipport string, ok bool) {
 
 func oracleC05(w *polWorld, s *sut.SUT) {
 	env, c := w.env, w.c
-	pacMap := func(host string) string { return pacResultFor(c.PAC, host) }
+	pacMap := pacFor(c.PAC)
 	for _, res := range w.results {
 		r := res.Req
 		if res.Skipped {
@@ -302,7 +340,7 @@ func oracleC05(w *polWorld, s *sut.SUT) {
 			feature = r.Kind + "/must-fail"
 			env.Probe("route_must_fail")
 			if st < 500 || len(arr) > 0 || len(holders) > 0 {
-				env.Fail("route-silent-fallback", feature+"/"+strings.ReplaceAll(h.why, " ", "-"), "%s (%s host %q): the configuration cannot route it (%s; PAC result %q) so it must fail, but status=%d and it was received by %v / seen in bytes of %v", r.Token, r.Kind, r.Host, h.why, pacMap(r.hostOnly()), st, arrNodes(arr), holders)
+				env.Fail("route-silent-fallback", feature+"/"+strings.ReplaceAll(h.why, " ", "-"), "%s (%s host %q): the configuration cannot route it (%s; PAC result %q) so it must fail, but status=%d and it was received by %v / seen in bytes of %v", r.Token, r.Kind, r.Host, h.why, pacMap(r), st, arrNodes(arr), holders)
 			}
 			continue
 		}
